@@ -4,16 +4,17 @@ from .. import vlib
 
 TRUSTED = [
     "Lean 4.33 kernel; axioms per theorem listed under coverage.axioms (subset of propext, Classical.choice, Quot.sound)",
-    "translate/udq.py (UDQTokenType enum, token-class sets, func_type table, function registrations -> Gen/UdqEnums.lean), cross-checked by the AST/eval correspondence",
+    "translate/udq.py (UDQTokenType enum, token-class sets, func_type table, function registrations, UDQVarType, is_no_mix, targetType first-character table -> Gen/UdqEnums.lean), cross-checked by the AST/eval/var_type correspondence",
     "harness/udq.cpp (reads UDQASTNode/UDQDefine private members through their public serializeOp) + lib/vlib.py differ; model driver (compiled Lean, libm pow/exp/log shared with the C++)",
-    "modelled, not verified: DEFINE record tokenisation (UDQDefine.cpp string splitting), WellMatcher wildcard matching (answers passed to the model), var_type inference / static type check, segment/region/table-lookup/RAND* quantities, std::sort tie order (insertion sort assumed for <= 16 elements)",
+    "outside the model: strtod beyond decimal literals (hex, inf, nan), WellMatcher wildcard matching (answers passed to the model), segment/region quantities, table evaluation, RAND*, std::sort tie order (insertion sort assumed for <= 16 elements)",
 ]
 
 
 def run(ctx):
     ctx.assumptions += [
         "doubles cross the protocol as IEEE bit patterns and are compared exactly (the compiled model calls the same libm)",
-        "token sequences on which UDQParser::parse_factor runs past the end of the token vector (last token '(' or a unary sign, or no token) are undefined behaviour in the code; the model answers `ub`, the harness does not execute them",
+        "records on which make_udq_tokens runs past the end of its token vector (table look-up without ']') are undefined behaviour in the code; the model answers `ub`, the correspondence does not execute them, property mode probes them in a child process (known finding table-lookup-unterminated)",
+        "trees with a childless operator node (known finding operator-as-operand) are compared as trees but never evaluated",
     ]
     ctx.stage_translate(["udq"])
     if not ctx.stage_build_opm():
